@@ -80,16 +80,16 @@ class Akord(protocol_base.IrProtocolBase):
 
     def decode(self, data: list, frequency: int = 0) -> protocol_base.IRCode:
         code = protocol_base.IrProtocolBase.decode(self, data, frequency)
+        func_checksum = self._calc_checksum(code.function)
+
+        if func_checksum != code.f_checksum:
+            raise DecodeError('Checksum failed')
+
         if self._last_code is not None:
             if self._last_code == code:
                 return self._last_code
 
             self._last_code.repeat_timer.stop()
-
-        func_checksum = self._calc_checksum(code.function)
-
-        if func_checksum != code.f_checksum:
-            raise DecodeError('Checksum failed')
 
         self._last_code = code
         return code
